@@ -1518,7 +1518,7 @@ func chainedFrom(v ssa.Value, root *ssa.Parameter, d int) bool {
 // attributePassesKnown (C12.R8, cited as C11.R7 and C02.R13): the rules of these properties judge the attribute list
 // pass by pass — the allow-list filter, the URL pass, the href scan, the rel passes, the crossorigin and sandbox passes.
 // Each is recognised by what it looks at: a comparison of an attribute's Key with one of the constants the sanitiser
-// handles, or a lookup of the Key in a rule table.  A loop of sanitizeAttrs that builds or edits an attribute list without
+// handles, a lookup of the Key in a rule table, or a call of validURL.  A loop of sanitizeAttrs that builds or edits an attribute list without
 // doing either (a de-duplication, a re-ordering, a cap on the number of attributes) is a pass the rules know nothing about:
 // it can drop or move what they established.  Likewise the list is never re-sliced (cut) once it exists.
 func attributePassesKnown(c *Ctx, rule, consequence string) {
@@ -1533,6 +1533,7 @@ func attributePassesKnown(c *Ctx, rule, consequence string) {
 		return ok && strings.HasSuffix(sl.Elem().String(), "html.Attribute")
 	}
 	known := map[string]bool{"href": true, "src": true, "cite": true, "rel": true, "target": true, "crossorigin": true, "sandbox": true, "style": true}
+	vu := c.P.Func("github.com/microcosm-cc/bluemonday", "(*Policy).validURL")
 	isKeyLoad := func(v ssa.Value) bool {
 		u, ok := v.(*ssa.UnOp)
 		if !ok {
@@ -1595,6 +1596,12 @@ func attributePassesKnown(c *Ctx, rule, consequence string) {
 						if sl, ok := mt.Elem().Underlying().(*types.Slice); ok && strings.HasSuffix(sl.Elem().String(), "attrPolicy") {
 							return true
 						}
+					}
+				case *ssa.Call:
+					// the URL pass: whatever way it picks the attribute (a switch, a table of element → attribute), it
+					// is the loop that hands values to validURL
+					if vu != nil && x.Common().StaticCallee() == vu {
+						return true
 					}
 				}
 			}
